@@ -27,6 +27,9 @@ type guestSpec struct {
 	Styles []string // one host import per style: module "h", name = style
 	K      int
 	PV, RV [][]val // abstract vectors (funcref = target index)
+	Tail   bool    // tail-call wrappers t_/ti_/tj_ (needs the tail-call feature)
+	E      []T     // tail wrappers: extra leading parameters of the wrapper (numeric)
+	EV     []val   // their values
 	Mixed  bool    // mixed import section (mixed.go) with a decoy type 0
 	Layout uint64  // PRNG seed of the import order
 }
@@ -214,7 +217,7 @@ func buildGuest(s *guestSpec) []byte {
 		}
 	}
 	g.tI32 = m.AddType(nil, []T{wenc.I32})
-	m.Tables = []wenc.TableType{{Elem: wenc.FuncRef, Lim: wenc.Limits{Min: 2}}}
+	m.Tables = []wenc.TableType{{Elem: wenc.FuncRef, Lim: wenc.Limits{Min: 2 + uint32(len(s.Styles))}}}
 	m.Globals = []wenc.Global{
 		{Type: wenc.GlobalType{Type: wenc.I64, Mutable: true}, Init: wenc.ConstI64(int64(canaryI))},
 		{Type: wenc.GlobalType{Type: wenc.F64, Mutable: true}, Init: wenc.ConstF64(canaryF)},
@@ -223,6 +226,14 @@ func buildGuest(s *guestSpec) []byte {
 		g.targets[i] = m.AddFunc(nil, []T{wenc.I32}, nil, (&wenc.Code{}).I32Const(int32(1000+i)).End().B)
 	}
 	m.Elems = []wenc.Elem{{Mode: 2, FuncIdx: g.targets[:]}}
+	if s.Tail {
+		// table slot 2+i holds the host import of style i (for return_call_indirect)
+		el := wenc.Elem{Mode: 0, TableIdx: g.tbl, Offset: wenc.ConstI32(2)}
+		for _, st := range s.Styles {
+			el.FuncIdx = append(el.FuncIdx, imp[st])
+		}
+		m.Elems = append(m.Elems, el)
+	}
 	for i := 0; i < nTargets; i++ {
 		m.ExportFunc(fmt.Sprintf("getref%d", i), m.AddFunc(nil, []T{wenc.FuncRef}, nil, (&wenc.Code{}).RefFunc(g.targets[i]).End().B))
 	}
@@ -234,8 +245,11 @@ func buildGuest(s *guestSpec) []byte {
 		refT[i] = s.P[p]
 	}
 	rPlus := append(append([]T(nil), s.R...), wenc.I32)
-	for _, st := range s.Styles {
+	for si, st := range s.Styles {
 		h := imp[st]
+		if s.Tail {
+			buildTailWrappers(m, g, s, si, st, h)
+		}
 		m.ExportFunc("x_"+st, h)
 		// pass-through
 		c := &wenc.Code{}
@@ -343,4 +357,69 @@ func gExpectedResults(s *guestSpec, k int, params []val) []val {
 		}
 	}
 	return out
+}
+
+// buildTailWrappers: tail-call forms of the wrappers of host import h (P -> R):
+//
+//	t_<style>       E++P -> R   pushes its P part and does `return_call h`
+//	ti_<style>      E++P -> R   the same through `return_call_indirect` (table slot 2+si holds h)
+//	tj_<style>_<k>  refs(P) -> R+i32   (k < 4) bakes E and vector k's params, CALLs t_ (k even) / ti_ (k odd) and
+//	                judges vector k's results in wasm
+//
+// E are extra leading parameters of the wrapper only (0..12, integer or float
+// class), so that the wrapper has stack-passed parameters the callee has not.
+func buildTailWrappers(m *wenc.Module, g *gb, s *guestSpec, si int, st string, h uint32) {
+	nE, nP, nR := uint32(len(s.E)), uint32(len(s.P)), uint32(len(s.R))
+	tP := append(append([]T(nil), s.E...), s.P...)
+	c := &wenc.Code{}
+	for i := uint32(0); i < nP; i++ {
+		c.LocalGet(nE + i)
+	}
+	t := m.AddFunc(tP, s.R, nil, c.ReturnCall(h).End().B)
+	m.ExportFunc("t_"+st, t)
+	c = &wenc.Code{}
+	for i := uint32(0); i < nP; i++ {
+		c.LocalGet(nE + i)
+	}
+	c.I32Const(int32(2+si)).ReturnCallIndirect(m.AddType(s.P, s.R), g.tbl)
+	ti := m.AddFunc(tP, s.R, nil, c.End().B)
+	m.ExportFunc("ti_"+st, ti)
+	refs := refPositions(s.P)
+	refT := make([]T, len(refs))
+	for i, p := range refs {
+		refT[i] = s.P[p]
+	}
+	nRef := uint32(len(refs))
+	for k := 0; k < s.K && k < 4; k++ {
+		mask := nRef + nR
+		c := &wenc.Code{}
+		for i, et := range s.E {
+			pushConst(c, g, et, s.EV[i])
+		}
+		e := uint32(0)
+		for i, pt := range s.P {
+			if pt == wenc.ExternRef || pt == wenc.FuncRef {
+				c.LocalGet(e)
+				e++
+			} else {
+				pushConst(c, g, pt, s.PV[k][i])
+			}
+		}
+		if k%2 == 0 {
+			c.Call(t)
+		} else {
+			c.Call(ti)
+		}
+		for j := int(nR) - 1; j >= 0; j-- {
+			c.LocalSet(nRef + uint32(j))
+		}
+		for j, rt := range s.R {
+			judge(c, g, nRef+uint32(j), rt, s.RV[k][j], j, mask)
+		}
+		for j := uint32(0); j < nR; j++ {
+			c.LocalGet(nRef + j)
+		}
+		c.LocalGet(mask).End()
+		m.ExportFunc(fmt.Sprintf("tj_%s_%d", st, k), m.AddFunc(refT, append(append([]T(nil), s.R...), wenc.I32), append(append([]T(nil), s.R...), wenc.I32), c.B))
+	}
 }
